@@ -66,14 +66,17 @@ class Layouts:
         hits = [k for k in s.rec if r.fullmatch(k)]
         if len(hits) != 1: raise LayoutError("record pattern %s matches %d records: %s" % (regex, len(hits), hits[:5]))
         return hits[0]
+    def _members(s, node, seg, out):
+        for c in node.children:
+            if c.name == seg and not c.base: out.append(c)
+        for c in node.children:
+            if c.base: s._members(c, seg, out)
     def _member(s, node, seg):
-        for c in node.children:
-            if c.name == seg and not c.base: return c
-        for c in node.children:
-            if c.base:
-                r = s._member(c, seg)
-                if r is not None: return r
-        return None
+        """member `name` or `name#k` (k-th member of that name: own members first, then base classes depth-first)"""
+        k = 0
+        if '#' in seg: seg, k = seg.split('#'); k = int(k)
+        out = []; s._members(node, seg, out)
+        return out[k] if k < len(out) else None
     def offset(s, record, path):
         """byte offset of member path (list of names) within record; returns (offset, node)"""
         root, _ = s.rec[s.find(record)]
